@@ -317,6 +317,23 @@ def _prep_symlink(d: str) -> None:
     os.symlink(os.path.join("real", "sdkconfig.real"), os.path.join(d, "sdkconfig"))
 
 
+def link_paths(dest: str, link: int) -> List[str]:
+    """relative paths (under the generation directory) of a destination reached through `link` symlinks: [dest, (hop,) real file]"""
+    base = os.path.basename(dest)
+    return [dest] + ([os.path.join("hop", base + ".lnk")] if link == 2 else []) + [os.path.join("real", base + ".real")]
+
+
+def prep_links(d: str, dest: str, link: int) -> None:
+    """dest becomes a RELATIVE symlink; with link == 2 it points to a second, ABSOLUTE symlink in another directory.  The chain ends at a
+    not yet existing file of the existing directory real/ (the first generation creates it through the link(s))."""
+    chain = link_paths(dest, link)
+    for rel in chain:
+        os.makedirs(os.path.dirname(os.path.join(d, rel)) or d, exist_ok=True)
+    for n, (src, dst) in enumerate(zip(chain, chain[1:])):
+        target = os.path.relpath(os.path.join(d, dst), os.path.dirname(os.path.join(d, src))) if n == 0 else os.path.join(d, dst)
+        os.symlink(target, os.path.join(d, src))
+
+
 KCONFGEN_FORMATS = ("config", "header", "cmake", "docs", "json", "json_menus", "savedefconfig", "report", "cdep_tree")
 
 
@@ -469,6 +486,22 @@ def items(tier: str, seed: int):
             if gens()[n].same_only and a != b:
                 continue
             out.append({"part": "A", "gen": n, "a": a, "b": b, "tree": tree})
+    # ---- part A with the destination being a symlink / a chain of two symlinks to a regular file (every generator but the one that
+    # brings its own link): unchanged regeneration of every configuration, changed both ways, a change that is invisible in most formats
+    if quick:
+        lpairs = [("base", c, c) for c in cfgs] + [("base", cfgs[x], cfgs[y]) for x, y in ((1, 3), (3, 1), (0, 5), (5, 0))]
+        lpairs += [("base", SEP_CONFIGS[-1], SEP_CONFIGS[-1]), ("sep", {}, {})]
+    else:
+        lpairs = [("base", x, y) for x, y in itertools.product(cfgs, repeat=2)] + [("base", c, c) for c in SEP_CONFIGS]
+        lpairs += [("sep", x, y) for x, y in itertools.product(SEP_TREE_CONFIGS, repeat=2)]
+    for n in names:
+        if gens()[n].prepare is not None:
+            continue
+        for link in (1, 2):
+            for tree, a, b in lpairs:
+                if gens()[n].same_only and a != b:
+                    continue
+                out.append({"part": "A", "gen": n, "a": a, "b": b, "tree": tree, "link": link})
     sub: List[dict] = []
     for fmt in ("config", "header", "json") if quick else KCONFGEN_FORMATS:
         for a, b in ((1, 1), (1, 3)) if quick else ((1, 1), (1, 3), (0, 5), (4, 0)):
@@ -476,6 +509,7 @@ def items(tier: str, seed: int):
         sub.append({"part": "A", "gen": f"kconfgen-subprocess:{fmt}", "a": SEP_CONFIGS[-1], "b": SEP_CONFIGS[-1], "tree": "base"})
         if not quick:
             sub.append({"part": "A", "gen": f"kconfgen-subprocess:{fmt}", "a": {}, "b": {}, "tree": "sep"})
+            sub.append({"part": "A", "gen": f"kconfgen-subprocess:{fmt}", "a": cfgs[1], "b": cfgs[1], "tree": "base", "link": 2})
     # ---- part H: the unchanged clause across kconfgen PROCESSES with different string-hash seeds, all formats in one invocation
     seeds = H_SEEDS["quick" if quick else "thorough"]
     for tname in ("two_aliases", "three_aliases", "two_files") if quick else tuple(H_TABLES):
@@ -581,15 +615,18 @@ def read_through(p: str) -> Optional[bytes]:
         return None
 
 
-def part_a(e: Env, gen_name: str, a: Dict[str, str], b: Dict[str, str], r: common.Result) -> None:
+def part_a(e: Env, gen_name: str, a: Dict[str, str], b: Dict[str, str], r: common.Result, link: int = 0) -> None:
     g = gens()[gen_name]
-    case = {"part": "A", "gen": gen_name, "a": a, "b": b, "files": e.files}
+    case = {"part": "A", "gen": gen_name, "a": a, "b": b, "files": e.files, "link": link}
+    via = f" [destination reached through {link} symlink(s)]" if link else ""
     same_cfg = a == b
 
     def generate(tag: str, cfgs: List[Dict[str, str]], log: Optional[list] = None, before: Optional[list] = None) -> Optional[str]:
         d = e.fresh(tag)
         if g.prepare:
             g.prepare(d)
+        if link and tag == "A":  # the reference generation (into an empty directory) writes a plain file
+            prep_links(d, g.dest, link)
         for n, cfg in enumerate(cfgs):
             last = n == len(cfgs) - 1
             if last and before is not None:
@@ -624,8 +661,17 @@ def part_a(e: Env, gen_name: str, a: Dict[str, str], b: Dict[str, str], r: commo
     drel = g.dest
     real_rel = os.path.relpath(os.path.realpath(os.path.join(d, drel)), os.path.realpath(d))
     ref = read_through(os.path.join(dref, drel))
+    if link:
+        # the scenario itself, measured: before the second generation dest is a link (chain of `link` links) ending at a regular file
+        shape = [before.get(rel, ("-",))[0] for rel in link_paths(drel, link)]
+        if shape != ["l"] * link + ["f"]:
+            r.count("A_link_destination_not_preserved_by_first_generation")  # nothing promises it for a first write: counted
+            return
+        r.count(f"A_destination_through_{link}_symlink{'s' if link > 1 else ''}")
+        real_rel = link_paths(drel, link)[-1]  # where the chain ended BEFORE the generation under test
+    chain = sorted({real_rel, drel} | (set(link_paths(drel, link)) if link else set()))
     prev = before.get(real_rel, (None,) * 5)[4]
-    new = after.get(real_rel, (None,) * 5)[4]
+    new = read_through(os.path.join(d, drel)) if link else after.get(real_rel, (None,) * 5)[4]  # changed case: what dest now reads as
     if ref is None or prev is None:
         # observation, not a harness error: a generation completed without raising and its destination does not exist
         r.violation({"kind": "output_missing_after_generation", "site": g.site, "gen": gen_name, "generation": "first" if prev is None else "into_empty_directory"},
@@ -637,39 +683,41 @@ def part_a(e: Env, gen_name: str, a: Dict[str, str], b: Dict[str, str], r: commo
         r.count("A_separator_in_" + ("unchanged" if ref == prev else "changed") + "_output")
     if ref == prev:
         r.count("A_unchanged_output" + ("" if same_cfg else "_for_changed_configuration"))
-        r.outcome(("A", gen_name, "unchanged", common.h64(_norm(e, prev))))
+        r.outcome(("A", gen_name, "unchanged", common.h64(_norm(e, prev))) + ((link,) if link else ()))
         diffs = []
-        for rel in sorted({real_rel, drel}):
+        for rel in chain:  # the real file and every link leading to it: kind, inode, mtime / link text, size, bytes
             x, y = before.get(rel), after.get(rel)
             if x != y:
                 names = ("kind", "st_ino", "st_mtime_ns", "st_size", "bytes")
                 diffs += [names[i] for i in range(5) if y is None or x[i] != y[i]]
-        ops = [o["op"] for o in log if o["path"] in (drel, real_rel)]
+        ops = [o["op"] for o in log if o["path"] in chain]
         if diffs or ops:
             r.violation(
-                {"kind": "unchanged_output_rewritten", "site": g.site, "gen": gen_name, "changed": "+".join(sorted(set(diffs))) or "none", "ops": "+".join(sorted(set(ops))) or "none", "same_configuration": same_cfg},
-                f"{gen_name}: regenerating {'the same configuration ' + str(a) if same_cfg else str(b) + ' over ' + str(a) + ' (identical output)'} touched {drel}: "
+                {"kind": "unchanged_output_rewritten", "site": g.site, "gen": gen_name, "changed": "+".join(sorted(set(diffs))) or "none", "ops": "+".join(sorted(set(ops))) or "none", "same_configuration": same_cfg, **({"dest_links": link} if link else {})},
+                f"{gen_name}{via}: regenerating {'the same configuration ' + str(a) if same_cfg else str(b) + ' over ' + str(a) + ' (identical output)'} touched {drel}: "
                 f"changed {sorted(set(diffs))}, operations {ops}", case)
         if same_cfg:
-            other = sorted(rel for rel in set(before) | set(after) if rel not in (drel, real_rel) and before.get(rel) != after.get(rel))
+            other = sorted(rel for rel in set(before) | set(after) if rel not in chain and before.get(rel) != after.get(rel))
             if other:
                 r.violation(
-                    {"kind": "unchanged_regeneration_modifies_other_file", "site": g.site, "gen": gen_name, "files": "+".join(_classify_other(x) for x in other)},
-                    f"{gen_name}: regenerating the same configuration {a} modified / created {other}", case)
+                    {"kind": "unchanged_regeneration_modifies_other_file", "site": g.site, "gen": gen_name, "files": "+".join(_classify_other(x) for x in other), **({"dest_links": link} if link else {})},
+                    f"{gen_name}{via}: regenerating the same configuration {a} modified / created {other}", case)
     else:
         r.count("A_changed_output")
-        r.outcome(("A", gen_name, "changed", common.h64(_norm(e, prev)), common.h64(_norm(e, ref))))
+        r.outcome(("A", gen_name, "changed", common.h64(_norm(e, prev)), common.h64(_norm(e, ref))) + ((link,) if link else ()))
         if new != ref:
             r.violation(
-                {"kind": "changed_output_not_written", "site": g.site, "gen": gen_name, "result": "old_bytes" if new == prev else "missing" if new is None else "other_bytes"},
-                f"{gen_name}: generating {b} over the output of {a} left {new!r}, a generation into an empty directory gives {ref!r}", case)
+                {"kind": "changed_output_not_written", "site": g.site, "gen": gen_name, "result": "old_bytes" if new == prev else "missing" if new is None else "other_bytes", **({"dest_links": link} if link else {})},
+                f"{gen_name}{via}: generating {b} over the output of {a} left {new!r}, a generation into an empty directory gives {ref!r}", case)
         if gen_name in ("write_config:save_old", "write_config:symlink"):
             old = read_through(os.path.join(d, drel + ".old"))
             if old != prev:
                 r.violation({"kind": "backup_is_not_previous", "site": "core.py:_save_old", "gen": gen_name, "result": "missing" if old is None else "other_bytes"},
                             f"{gen_name}: after saving {b} over {a}, {drel}.old holds {old!r} instead of the previous configuration", case)
-            if gen_name == "write_config:symlink" and not os.path.islink(os.path.join(d, drel)):
-                r.count("A_symlink_replaced_by_save")  # only a source comment ("Preserve symlinks") promises this: counted, not a violation
+        if gen_name == "write_config:symlink" and not os.path.islink(os.path.join(d, drel)):
+            r.count("A_symlink_replaced_by_save")  # only a source comment ("Preserve symlinks") promises this: counted, not a violation
+        if link and any(before[rel] != after.get(rel) for rel in chain if before.get(rel, ("-",))[0] == "l"):
+            r.count("A_link_replaced_by_changed_generation")  # only a source comment ("Preserve symlinks") promises this: counted, not a violation
 
 
 def _norm(e: Env, data: bytes) -> bytes:
@@ -1086,8 +1134,8 @@ def run_item(item) -> common.Result:
     r.programs = 1
     e = env(item.get("tree", "base"))
     if item["part"] == "A":
-        part_a(e, item["gen"], item["a"], item["b"], r)
-        r.sample = {"part": "A", "generator": item["gen"], "tree": item.get("tree", "base"), "a": item["a"], "b": item["b"]}
+        part_a(e, item["gen"], item["a"], item["b"], r, int(item.get("link", 0)))
+        r.sample = {"part": "A", "generator": item["gen"], "tree": item.get("tree", "base"), "a": item["a"], "b": item["b"], "symlinks_to_destination": int(item.get("link", 0))}
     elif item["part"] == "H":
         part_h(e, item, r)
         r.sample = {"part": "H", "rename_files": item["renames"], "configuration": item["cfg"], "PYTHONHASHSEED_of_successive_processes": item["seeds"], "in_place": bool(item.get("inplace"))}
@@ -1106,7 +1154,7 @@ def replay(case) -> List[dict]:
     r = common.Result()
     e = Env(case["files"])
     if case["part"] == "A":
-        part_a(e, case["gen"], case["a"], case["b"], r)
+        part_a(e, case["gen"], case["a"], case["b"], r, int(case.get("link", 0)))
     elif case["part"] == "H":
         part_h(e, case, r)
     else:
